@@ -82,4 +82,7 @@ def run(chk, prog):
             chk.violation(v["rule"], v["instance"], v["construct"], v["derived"], v["expected"], v["where"])
         else:
             chk.ok(o["rule"], o["instance"], o["fact"])
+    # "returns None when every address is traceable" is decided by extras.static_is_empty(): every container that can be semantically empty must say so (C17)
+    from ._share import take
+    take(chk, prog, "C17", lambda o: o["instance"] in ("Switch.static_is_empty", "Static.build", "Switch.build", "Switch.filter"), "emptiness / rebuild obligations of choice-map containers (from C17)", 3)
     chk.explanation = "polarity and emptiness test of invalid_subset; exhaustive, address-aligned recursion of _shape_selection"
